@@ -95,7 +95,7 @@ CLAIMED.update({
    design='5/C03'),
  'C06': dict(
    technique='Lean 4 proof: format clauses pinned as theorems over the model writer (header constants, tag tables, widths, layouts) plus an independent reference encoder (Lean model + XXH3 port) compared byte-for-byte; golden corpus read and re-written on every run',
-   text='Kernel-checked clause by clause: header_layout (cookie, 1.1, pointer width 8, hash words, length-prefixed name), stream_layout, prim_le, string/vec layouts, zero-copy layouts, option/bound/control-flow tag tables, enum_layout (pointer-width variant index), fields_in_order. The run compares every generated stream, both hash feeds (recorded from the real type_hash/align_hash with a recording Hasher) and digests (XXH3 port vs xxhash-rust on 58 lengths) with the model, and for the committed golden corpus (333 files for a fixed universe of definitions) checks that re-serialization reproduces the stored bytes, both deserializers return the stored values and the hash words are unchanged.',
+   text='Kernel-checked clause by clause: header_layout (cookie, 1.1, pointer width 8, hash words, length-prefixed name), stream_layout, prim_le, string/vec layouts, zero-copy layouts, option/bound/control-flow tag tables, enum_layout (pointer-width variant index), fields_in_order. The run compares every generated stream, both hash feeds (recorded from the real type_hash/align_hash with a recording Hasher) and digests (XXH3 port vs xxhash-rust on 58 lengths) with the model, and for the committed golden corpus (NCORPUS files for a fixed universe of definitions) checks that re-serialization reproduces the stored bytes, both deserializers return the stored values and the hash words are unchanged.',
    note='the corpus was written by the tree at claim time (pinned tree + reader-side fix commits, which do not change written bytes); XXH3 collision-freedom is not claimed.',
    design='5/C06'),
 })
@@ -143,6 +143,9 @@ NOT_YET = {
 ALL = ['C%02d' % i for i in range(1, 20)]
 
 def main():
+    ncorpus = sum(1 for _ in open(os.path.join(VERIF, 'corpus', 'v1', 'corpus.jsonl')))
+    for c in CLAIMED.values():
+        c['text'] = c['text'].replace('NCORPUS', str(ncorpus))
     checks = []
     for p in ALL:
         if p in CLAIMED:
